@@ -12,7 +12,7 @@ import random
 
 from hv import core
 from hv.engine_harness import METRIC_ATTRS, Harness, make_stateless, program_lines
-from hv.props.c01 import gen_program
+from hv.props.c01 import gen_program, shift_start
 from hv.props.c02 import gen_future_program
 
 MODES = ["plain", "trace", "evtrace", "ctl", "ctl", "ctl", "reset", "reset-src"]
@@ -172,9 +172,9 @@ def gen_script(rng: random.Random, prog):
     return cmds
 
 
-def pre_run_injections(script):
+def pre_run_injections(script, start=0):
     """the SCH commands that take effect before a run() (they join the pre-run schedule that reset() replays),
-    as (tgt, kind, time, daemon); the clock is 0 whenever no run has started"""
+    as (tgt, kind, time, daemon); the clock is start_time whenever no run has started"""
     started, out = False, []
     for c in script:
         if c[0] == "G":
@@ -182,7 +182,7 @@ def pre_run_injections(script):
         elif c[0] == "RST":
             started = False
         elif c[0] == "SCH" and not started:
-            out.append((c[1], c[2], c[4], c[5]))
+            out.append((c[1], c[2], c[4] + (start if c[3] == "R" else 0), c[5]))
     return out
 
 
@@ -254,6 +254,9 @@ class C04(core.Property):
         prog = gen_future_program(rng) if rng.random() < 0.4 else gen_program(rng, crash=rng.random() < 0.5)
         mode = rng.choice(MODES)
         prog["mode"] = mode
+        if mode != "reset-src" and rng.random() < 0.25:
+            # the run starts at a start_time other than the epoch (reset() must go back to it), horizon as end_time= or duration=
+            shift_start(rng, prog)
         if mode == "ctl":
             if rng.random() < 0.5:
                 add_levels(rng, prog)
@@ -427,7 +430,7 @@ class C04(core.Property):
         if case["mode"] == "ctl":
             # events scheduled from outside before a run() are part of the pre-run schedule
             ref["pre"] = list(case["pre"]) + [dict(tgt=tgt, kind=kind, time=t, daemon=bool(dm), hook=0, cancelled=False)
-                                              for tgt, kind, t, dm in pre_run_injections(case["script"])]
+                                              for tgt, kind, t, dm in pre_run_injections(case["script"], case.get("start", 0))]
         h = Harness(ref)
         h.build(**self._sources(h, ref))
         return h.run()
@@ -457,7 +460,7 @@ class C04(core.Property):
         ctl = case["mode"] == "ctl"
         stream = [l for l in obs if l.split(" ", 1)[0] in ("d", "dm", "st", "fr")]
         log = obs[len(stream):]
-        body = [f"mode {case['mode']}", f"stateless {1 if case.get('stateless') else 0}"]
+        body = [f"mode {case['mode']}", f"stateless {1 if case.get('stateless') else 0}", f"start {case.get('start', 0)}"]
         if ctl:
             # every command is followed by exactly one `st` line: put the command in front of its lines
             it = iter(case["script"])
